@@ -102,6 +102,8 @@ type Rec struct {
 	Inconclusive int64             `json:"inconclusive"`
 	InconcWhy    map[string]int64  `json:"inconclusive_why"`
 	Notes        map[string]string `json:"notes"`
+	SlowCase     int               `json:"slow_case"`   // case with the largest CPU cost in this worker
+	SlowCPUms    int64             `json:"slow_cpu_ms"` // its CPU cost (user+system, whole worker process)
 	seen         map[uint64]struct{}
 	cur          Case
 	maxSamples   int
@@ -364,6 +366,22 @@ func work(a []string) int {
 	// runaway recursion in the code under test must die quickly (fatal error:
 	// stack overflow) instead of eating gigabytes first
 	debug.SetMaxStack(64 << 20)
+	// memory sentinel: GOMEMLIMIT is only a soft limit and the sandbox has no hard one, so a case
+	// that grows without bound would take the machine down; end the worker instead (the driver
+	// reports the case it died on).
+	if capMB, _ := strconv.Atoi(os.Getenv("VERIF_MEMCAP_MB")); capMB > 0 {
+		go func() {
+			var ms runtime.MemStats
+			for {
+				time.Sleep(250 * time.Millisecond)
+				runtime.ReadMemStats(&ms)
+				if ms.HeapAlloc>>20 > uint64(capMB) {
+					fmt.Fprintf(os.Stderr, "fatal error: verif memory cap exceeded: live heap %d MiB > %d MiB while running one case\n", ms.HeapAlloc>>20, capMB)
+					os.Exit(7)
+				}
+			}
+		}()
+	}
 	r := newRec(id)
 	// merge an earlier partial record of this shard (after a crash restart)
 	if b, err := os.ReadFile(out + ".partial"); err == nil {
@@ -385,7 +403,11 @@ func work(a []string) int {
 		cur.WriteAt(s, 0)
 		cs := Case{Seed: seed, Index: i, Tier: tier}
 		r.cur = cs
+		cpu0 := selfCPUms()
 		c.RunCase(r, cs)
+		if d := selfCPUms() - cpu0; d > r.SlowCPUms {
+			r.SlowCPUms, r.SlowCase = d, i
+		}
 		if time.Since(lastFlush) > 5*time.Second {
 			writeRec(out+".partial", r)
 			lastFlush = time.Now()
@@ -421,6 +443,9 @@ func mergeInto(dst, src *Rec) {
 		dst.Notes[k] = v
 	}
 	dst.Inconclusive += src.Inconclusive
+	if src.SlowCPUms > dst.SlowCPUms {
+		dst.SlowCPUms, dst.SlowCase = src.SlowCPUms, src.SlowCase
+	}
 	for _, s := range src.Samples {
 		if len(dst.Samples) < 6 {
 			dst.Samples = append(dst.Samples, s)
@@ -541,7 +566,7 @@ func drive(id, tier string) int {
 					strconv.Itoa(s), strconv.Itoa(cfg.Workers), strconv.Itoa(startAfter), out)
 				cmd.Stdout = errf
 				cmd.Stderr = errf
-				cmd.Env = append(os.Environ(), "GOMEMLIMIT="+strconv.Itoa(cfg.MemLimitMB)+"MiB", "GOTRACEBACK=all")
+				cmd.Env = append(os.Environ(), "GOMEMLIMIT="+strconv.Itoa(cfg.MemLimitMB)+"MiB", "VERIF_MEMCAP_MB="+strconv.Itoa(cfg.MemLimitMB+500), "GOTRACEBACK=all")
 				cmd.Env = append(cmd.Env, cfg.Env...)
 				cmd.SysProcAttr = &syscall.SysProcAttr{Setpgid: true}
 				if err := cmd.Start(); err != nil {
@@ -551,10 +576,17 @@ func drive(id, tier string) int {
 				}
 				done := make(chan error, 1)
 				go func() { done <- cmd.Wait() }()
-				// watchdog: the .cur file must change within CaseTimeout
+				// watchdog: the .cur file must change. Verdicts are not taken from the wall clock alone
+				// (a loaded machine stretches it arbitrarily): a case "hangs" when the worker has burnt
+				// CaseTimeout of CPU time on it (spinning), or when CaseTimeout of wall time passed and
+				// the worker is blocked (no runnable thread, no CPU used). A worker that is merely slow
+				// is given 20x the time and then counted as inconclusive.
 				var werr error
 				timedOut := false
+				slowKill := false
 				lastCur, lastChange := "", time.Now()
+				cpuAtChange := procCPU(cmd.Process.Pid)
+				idleSince, cpuAtIdle := time.Now(), cpuAtChange
 			loop:
 				for {
 					select {
@@ -562,10 +594,22 @@ func drive(id, tier string) int {
 						break loop
 					case <-time.After(500 * time.Millisecond):
 						b, _ := os.ReadFile(out + ".cur")
+						cpu := procCPU(cmd.Process.Pid)
 						if string(b) != lastCur {
-							lastCur, lastChange = string(b), time.Now()
-						} else if time.Since(lastChange) > cfg.CaseTimeout {
-							timedOut = true
+							lastCur, lastChange, cpuAtChange = string(b), time.Now(), cpu
+							idleSince, cpuAtIdle = time.Now(), cpu
+							continue
+						}
+						if cpu-cpuAtIdle > 0.5 {
+							idleSince, cpuAtIdle = time.Now(), cpu
+						}
+						wall := time.Since(lastChange)
+						spinning := wall > cfg.CaseTimeout && cpu-cpuAtChange >= cfg.CaseTimeout.Seconds()
+						blocked := wall > cfg.CaseTimeout && time.Since(idleSince) > cfg.CaseTimeout/2 && noRunnableThread(cmd.Process.Pid)
+						tooSlow := wall > 20*cfg.CaseTimeout
+						if spinning || blocked || tooSlow {
+							timedOut = spinning || blocked
+							slowKill = !timedOut
 							syscall.Kill(-cmd.Process.Pid, syscall.SIGQUIT)
 							time.Sleep(300 * time.Millisecond)
 							syscall.Kill(-cmd.Process.Pid, syscall.SIGKILL)
@@ -575,8 +619,17 @@ func drive(id, tier string) int {
 					}
 				}
 				errf.Close()
-				if werr == nil && !timedOut {
+				if werr == nil && !timedOut && !slowKill {
 					break // finished
+				}
+				if slowKill {
+					// neither spinning nor blocked, just starved of CPU: no verdict on this case
+					b, _ := os.ReadFile(out + ".cur")
+					ci, _ := strconv.Atoi(strings.TrimSpace(strings.SplitN(string(b), "\n", 2)[0]))
+					os.Rename(out+".stderr", fmt.Sprintf("%s.stderr.%d", out, attempt))
+					rs.inconc++
+					startAfter = ci
+					continue
 				}
 				// died: find the case
 				b, _ := os.ReadFile(out + ".cur")
@@ -589,7 +642,7 @@ func drive(id, tier string) int {
 				if timedOut {
 					sig := "hang:case"
 					rs.crashes = append(rs.crashes, Violation{Property: id, Sig: sig,
-						What: fmt.Sprintf("worker made no progress for %s on one case (watchdog)", cfg.CaseTimeout),
+						What: fmt.Sprintf("worker made no progress on one case (watchdog: %s of CPU time spent on it, or blocked without a runnable thread for that long)", cfg.CaseTimeout),
 						Seed: seed, Case: ci, Tier: tier, Detail: map[string]interface{}{"watchdog": true, "stderr_tail": tail(stderr, 6000)}})
 				} else {
 					sig, head := CrashSig(stderr)
@@ -611,6 +664,9 @@ func drive(id, tier string) int {
 	for i := 0; i < cfg.Workers; i++ {
 		rs := <-ch
 		crashes = append(crashes, rs.crashes...)
+		for k := 0; k < rs.inconc; k++ {
+			merged.Inconc("worker could not be started or was too slow to judge (no verdict on its case)")
+		}
 		out := filepath.Join(wd, fmt.Sprintf("w%d.json", rs.shard))
 		b, err := os.ReadFile(out)
 		if err != nil {
@@ -716,6 +772,7 @@ func writeEvidence(c Check, m *Merged, tier string, seed int64, wall float64, nv
 		"worker_crashes":      m.Crashes,
 		"known_findings_seen": nknown,
 	}
+	cov["slowest_case"] = map[string]interface{}{"case": m.SlowCase, "cpu_ms": m.SlowCPUms}
 	if len(m.Notes) > 0 {
 		cov["notes"] = m.Notes
 	}
@@ -746,3 +803,63 @@ func writeEvidence(c Check, m *Merged, tier string, seed int64, wall float64, nv
 
 // NewRecForTest creates a record for unit tests of checks.
 func NewRecForTest(id string) *Rec { return newRec(id) }
+
+// procCPU returns the CPU seconds (user+system, including reaped children) consumed by pid.
+func procCPU(pid int) float64 {
+	b, err := os.ReadFile(fmt.Sprintf("/proc/%d/stat", pid))
+	if err != nil {
+		return 0
+	}
+	t := string(b)
+	i := strings.LastIndexByte(t, ')')
+	if i < 0 {
+		return 0
+	}
+	f := strings.Fields(t[i+1:])
+	// f[0] = state (field 3); utime, stime, cutime, cstime are fields 14..17
+	if len(f) < 15 {
+		return 0
+	}
+	var ticks int64
+	for _, k := range []int{11, 12, 13, 14} {
+		v, _ := strconv.ParseInt(f[k], 10, 64)
+		ticks += v
+	}
+	return float64(ticks) / 100
+}
+
+// noRunnableThread samples the scheduler state of every thread of pid a few times; true if none
+// was ever running, runnable or in uninterruptible I/O (the process is blocked, not starved).
+func noRunnableThread(pid int) bool {
+	for sample := 0; sample < 8; sample++ {
+		ents, err := os.ReadDir(fmt.Sprintf("/proc/%d/task", pid))
+		if err != nil || len(ents) == 0 {
+			return false
+		}
+		for _, e := range ents {
+			b, err := os.ReadFile(fmt.Sprintf("/proc/%d/task/%s/stat", pid, e.Name()))
+			if err != nil {
+				continue
+			}
+			t := string(b)
+			i := strings.LastIndexByte(t, ')')
+			if i < 0 || i+2 >= len(t) {
+				return false
+			}
+			if st := t[i+2]; st == 'R' || st == 'D' {
+				return false
+			}
+		}
+		time.Sleep(120 * time.Millisecond)
+	}
+	return true
+}
+
+// selfCPUms is the CPU time (user+system) this process has consumed so far, in milliseconds.
+func selfCPUms() int64 {
+	var ru syscall.Rusage
+	if syscall.Getrusage(syscall.RUSAGE_SELF, &ru) != nil {
+		return 0
+	}
+	return (ru.Utime.Sec+ru.Stime.Sec)*1000 + int64(ru.Utime.Usec+ru.Stime.Usec)/1000
+}
